@@ -180,7 +180,7 @@ pub fn preused_decoder(
 ) -> Result<Box<dyn codec::DynDec + Send>, reed_solomon_simd::Error> {
     let class = *rng.pick(&[Class::Tiny, Class::Small, Class::Edge, Class::Medium]);
     let (mut k0, mut r0) = gen::config(rng, class, rate);
-    let mut size0 = *rng.pick(&[2usize, 64, 66, 130]);
+    let mut size0 = *rng.pick(&[2usize, 64, 66, 100, 130]);
     let mut api0 = api;
     // sometimes the previous life had the very same (k, r, size) - with the
     // other rate's layout where the API allows to hand working space over
@@ -238,7 +238,7 @@ pub fn preused_encoder(
 ) -> Result<Box<dyn codec::DynEnc + Send>, reed_solomon_simd::Error> {
     let class = *rng.pick(&[Class::Tiny, Class::Small, Class::Edge, Class::Medium]);
     let (mut k0, mut r0) = gen::config(rng, class, rate);
-    let mut size0 = *rng.pick(&[2usize, 64, 66, 130]);
+    let mut size0 = *rng.pick(&[2usize, 64, 66, 100, 130]);
     let mut api0 = api;
     if rng.chance(1, 6) {
         if let Some(c) = gen::reshape(rng, rate, k, r, size) {
